@@ -126,12 +126,17 @@ func parseJSONBody(r *http.Request, ctx *Context) error {
 
 // sendJSONResponse sends a JSON response
 func sendJSONResponse(ctx *Context, data interface{}) error {
+	// Serialise before anything is committed: a value that cannot be encoded
+	// (NaN, +Inf) must end as an error, not as the body of a success status.
+	body, err := json.Marshal(data)
+	if err != nil {
+		return fmt.Errorf("failed to encode JSON response: %w", err)
+	}
+
 	ctx.ResponseWriter.Header().Set("Content-Type", "application/json")
 	ctx.ResponseWriter.WriteHeader(ctx.StatusCode)
-
-	encoder := json.NewEncoder(ctx.ResponseWriter)
-	if err := encoder.Encode(data); err != nil {
-		return fmt.Errorf("failed to encode JSON response: %w", err)
+	if _, err := ctx.ResponseWriter.Write(append(body, '\n')); err != nil {
+		return fmt.Errorf("failed to write JSON response: %w", err)
 	}
 
 	return nil
